@@ -56,6 +56,7 @@ pub fn explorer_plan(prop: &str, thorough: bool) -> Option<Plan> {
             p.rounds = (1, 4);
             p.max_items = 300;
             p.p_bulk = 0.05;
+            p.dims.extend_from_slice(&[257, 300]);
             Plan {
                 profile: p,
                 cases: (8000, 120000),
@@ -98,6 +99,8 @@ pub fn explorer_plan(prop: &str, thorough: bool) -> Option<Plan> {
         "C05" => {
             p.checks = Checks { store: true, ..Default::default() };
             p.values = vec![Values::AllBits, Values::AllBits, Values::Grid];
+            // a few large dimensions too: leaves beyond one LMDB page (overflow pages), several quantised words
+            p.dims.extend_from_slice(&[257, 1030]);
             p.p_variant_overwrite = 0.12;
             p.p_append = 0.08;
             p.p_clear = 0.02;
